@@ -12,11 +12,11 @@
 #include <optional>
 #include <sstream>
 
-enum Kind { SRC_NEW, SRC_RESET, SRC_COPYASSIGN, SRC_MOVEASSIGN, SRC_COPYCONS, SRC_SWAP, TOK_GET, TOK_COPY, TOK_CLEAR, REQ_STOP, CB_REG, CB_DEL };
+enum Kind { SRC_NEW, SRC_RESET, SRC_COPYASSIGN, SRC_MOVEASSIGN, SRC_COPYCONS, SRC_SWAP, TOK_GET, TOK_COPY, TOK_CLEAR, REQ_STOP, CB_REG, CB_DEL, TOK_SWAP, TOK_MOVE, SRC_MOVECONS, SRC_NOSTATE, CB_REG_RVALUE };
 struct Op { int kind, a, b; };
 static std::string opstr(Op o)
 {
-    static const char* n[] = {"src_new", "src_reset", "src_copy_assign", "src_move_assign", "src_copy_construct", "src_swap", "tok_get", "tok_copy", "tok_clear", "request_stop", "cb_register", "cb_destroy"};
+    static const char* n[] = {"src_new", "src_reset", "src_copy_assign", "src_move_assign", "src_copy_construct", "src_swap", "tok_get", "tok_copy", "tok_clear", "request_stop", "cb_register", "cb_destroy", "tok_swap", "tok_move_assign", "src_move_construct", "src_new_nostopstate", "cb_register_from_rvalue_token"};
     char b[64];
     snprintf(b, sizeof b, "%s(%d,%d)", n[o.kind], o.a, o.b);
     return b;
@@ -36,6 +36,13 @@ static std::vector<Op> alphabet()
     for (int i = 0; i < 2; ++i) v.push_back({REQ_STOP, i, 0});
     for (int c = 0; c < 2; ++c) for (int k = 0; k < 2; ++k) v.push_back({CB_REG, c, k});
     for (int c = 0; c < 2; ++c) v.push_back({CB_DEL, c, 0});
+    // handle operations that only move references around: swap (member and free function), move assignment of a
+    // token, move construction of a source, a source without state, a callback constructed from an rvalue token
+    v.push_back({TOK_SWAP, 0, 1});
+    for (int k = 0; k < 2; ++k) v.push_back({TOK_MOVE, k, 1 - k});
+    for (int i = 0; i < 2; ++i) v.push_back({SRC_MOVECONS, i, 1 - i});
+    v.push_back({SRC_NOSTATE, 1, 0});
+    for (int c = 0; c < 2; ++c) v.push_back({CB_REG_RVALUE, c, 1});
     return v;
 }
 
@@ -63,6 +70,9 @@ struct Ref
         case SRC_MOVEASSIGN: return src_present[o.a] && src_present[o.b];
         case SRC_COPYCONS: return !src_present[o.a] && src_present[o.b];
         case SRC_SWAP: return src_present[0] && src_present[1];
+        case SRC_MOVECONS: return !src_present[o.a] && src_present[o.b];
+        case SRC_NOSTATE: return !src_present[o.a];
+        case CB_REG_RVALUE: return !cb_present[o.a];
         case TOK_GET: return src_present[o.b];
         case REQ_STOP: return src_present[o.a];
         case CB_REG: return !cb_present[o.a];
@@ -84,6 +94,10 @@ struct Ref
         case SRC_MOVEASSIGN: drop_src(src[o.a]); src[o.a] = src[o.b]; src[o.b] = -1; break;
         case SRC_COPYCONS: src_present[o.a] = true; src[o.a] = src[o.b]; if (src[o.a] >= 0) ++st[src[o.a]].nsrc; break;
         case SRC_SWAP: std::swap(src[0], src[1]); break;
+        case SRC_MOVECONS: src_present[o.a] = true; src[o.a] = src[o.b]; src[o.b] = -1; break;
+        case SRC_NOSTATE: src_present[o.a] = true; src[o.a] = -1; break;
+        case TOK_SWAP: std::swap(tok[0], tok[1]); break;
+        case TOK_MOVE: tok[o.a] = tok[o.b]; tok[o.b] = -1; break;
         case TOK_GET: tok[o.a] = src[o.b]; break;    // stop_possible() of a source == has state
         case TOK_COPY: tok[o.a] = tok[o.b]; break;
         case TOK_CLEAR: tok[o.a] = -1; break;
@@ -101,6 +115,7 @@ struct Ref
             break;
         }
         case CB_REG:
+        case CB_REG_RVALUE:
         {
             cb_present[o.a] = true;
             cb_runs[o.a] = 0;
@@ -108,6 +123,7 @@ struct Ref
             if (s >= 0 && st[s].requested) { cb_runs[o.a] = 1; cb_on[o.a] = -1; }
             else if (s >= 0 && st[s].nsrc > 0) cb_on[o.a] = s;
             else cb_on[o.a] = -1;
+            if (o.kind == CB_REG_RVALUE) tok[o.b] = -1;    // the token was moved into the callback
             break;
         }
         case CB_DEL: cb_present[o.a] = false; cb_on[o.a] = -1; cb_runs[o.a] = 0; break;
@@ -160,6 +176,11 @@ struct Real
         case SRC_MOVEASSIGN: *src[o.a] = std::move(*src[o.b]); break;
         case SRC_COPYCONS: src[o.a].emplace(*src[o.b]); break;
         case SRC_SWAP: src[0]->swap(*src[1]); break;
+        case SRC_MOVECONS: src[o.a].emplace(std::move(*src[o.b])); break;
+        case SRC_NOSTATE: src[o.a].emplace(pika::nostopstate); break;
+        case TOK_SWAP: { using std::swap; swap(tok[0], tok[1]); break; }
+        case TOK_MOVE: tok[o.a] = std::move(tok[o.b]); break;
+        case CB_REG_RVALUE: runs[o.a] = 0; cb[o.a] = std::make_unique<pika::stop_callback<F>>(std::move(tok[o.b]), F{&runs[o.a]}); break;
         case TOK_GET: tok[o.a] = src[o.b]->get_token(); break;
         case TOK_COPY: tok[o.a] = tok[o.b]; break;
         case TOK_CLEAR: tok[o.a] = pika::stop_token(); break;
@@ -273,6 +294,6 @@ int main(int argc, char** argv)
         {"seq_pika_task", on_pika_task, "the same histories executed inside a pika task (the signalling-thread test uses the pika thread id)"},
     };
     return seqx::main_loop(o, specs,
-        "BFS over operation histories {source new/reset/copy-assign/move-assign/copy-construct/swap, get_token, token copy/clear, request_stop, callback register/destroy} to the depth bound, de-duplicated on the reference model's canonical state; every transition replayed on fresh real objects and compared step by step",
+        "BFS over operation histories {source new/reset/copy-assign/move-assign/copy-construct/move-construct/swap/nostopstate, get_token, token copy/move/swap/clear, callback from an rvalue token, request_stop, callback register/destroy} to the depth bound, de-duplicated on the reference model's canonical state; every transition replayed on fresh real objects and compared step by step",
         {"sequential histories only (races are covered by the pmc part)", "depth bound 10 (OS thread) / 9 (pika task) in the quick tier, 14 / 13 in the thorough tier (the de-duplicated search runs out of new reference states before that); two probe suffixes per transition (request stop through every source; drop every source)"});
 }
